@@ -22,8 +22,13 @@ import re
 import subprocess
 import time
 
+import sys
+
 import lib
 from lib import Case, log
+
+sys.path.insert(0, os.path.join(lib.VERIF, "gen"))
+import c15_defs  # noqa: E402
 
 PROP = "C15"
 DRIVER = "drv-c15"
@@ -381,7 +386,10 @@ def ra_intermediates(line, op):
 
 
 def classify_item(line, key, impl, spec, row=None):
-    """Known-finding id for a failing item of a case line, or None.  `row` = all impl items of the line."""
+    """Known-finding id for a failing item of a case line, or None.  `row` = all impl items of the line.
+    `X::value` (the class-template form) is classified like `X` (the `_v` form), against the same form of the row."""
+    form = "::value" if key.endswith("::value") else ""
+    key = base_key(key)
     if line.startswith("db "):
         # common_reference<T, U> is only defined for identical T and U; the concepts built on it inherit the gap
         if key in ("common_reference_with", "common_with") and impl == "0":
@@ -391,19 +399,31 @@ def classify_item(line, key, impl, spec, row=None):
         if key == "assignable_from" and impl == "1" and spec == "0":
             return "F-C15-common-reference-unimplemented"
         if key == "is_trivially_constructible":
-            return "F-C15-is-trivially-constructible-ignores-args"
+            # the defect: T2 is ignored, the answer is is_trivially_default_constructible<T1>; any other wrong answer is new
+            dflt = (row or {}).get("is_trivially_default_constructible<T1>")
+            if dflt is not None and impl == dflt:
+                return "F-C15-is-trivially-constructible-ignores-args"
+            return None
         return None
     if line.startswith("d "):
         if key == "swappable" and impl == "1" and spec == "0":
             return "F-C15-swappable-is-not-ranges-swap"
         if key.startswith("is_trivially_constructible<") or key in ("is_trivially_copy_constructible", "is_trivially_move_constructible"):
             # the defect: Args are ignored, the answer is is_trivially_default_constructible<T>; any other wrong answer is new
-            dflt = (row or {}).get("is_trivially_default_constructible")
+            dflt = (row or {}).get("is_trivially_default_constructible" + form)
             if dflt is None or impl == dflt:
                 return "F-C15-is-trivially-constructible-ignores-args"
             return None
         return None
     return None            # part (a), (b), (c): no known finding (the three ratio findings are fixed)
+
+
+def base_key(k):
+    """`X::value` / `X::type` are the class-template forms of item `X`: same model, same spec"""
+    for suf in ("::value", "::type"):
+        if k.endswith(suf):
+            return k[:-len(suf)]
+    return k
 
 
 def classify(case, k, row):            # interface of the standard flow (unused by run())
@@ -562,6 +582,28 @@ def compile_part(ctx, part_no, rows, items, repo):
     return outs, broken
 
 
+def regenerate_limits(repo):
+    """GenLimits.lean: numeric_limits<integer> members as the header spells them (gen/c15_limits.py)"""
+    try:
+        import c15_limits
+    except ImportError:
+        return None
+    info = c15_limits.generate(repo, os.path.join(lib.LEAN, "Tetl", "C15", "GenLimits.lean"), cxx=lib.CXX)
+    return {k: info.get(k) for k in ("hash", "changed", "entries", "opaque", "errors", "translator")}
+
+
+def probe_make_sign(ctx, cpp_type, which, repo):
+    """Observe that `etl::make_signed<T>::type` / `make_unsigned` is rejected where model and spec say ill-formed: the
+    harness (with the zoo's type aliases) is parsed with a one-line body.  Returns True when it does not compile."""
+    inc = os.path.join(lib.BUILD, "c15_%s_ms_%d.inc" % (ctx.run_id, abs(hash((cpp_type, which))) % 10 ** 8))
+    with open(inc, "w") as f:
+        f.write("{ using probe_t = typename etl::%s<%s>::type; static_assert(sizeof(probe_t*) > 0); }\n" % (which, cpp_type))
+    rc, _, _ = lib.sh([lib.CXX] + CXXSTD + ["-fsyntax-only", "-I", os.path.join(repo, "include"), "-DC15_INC=\"%s\"" % inc,
+                                            os.path.join(lib.VERIF, HARNESS)], timeout=600)
+    os.unlink(inc)
+    return rc != 0
+
+
 def probe_illformed(ctx, line, op, repo):
     """Observe in a translation unit of its own that tetl's instantiation is ill-formed.
     `op` is add/subtract/multiply/divide, "compare" or "rn".  Returns True when the probe does not compile."""
@@ -603,7 +645,7 @@ def evaluate_items(items):
             continue
         for k in I:
             i, s = I[k], S[k]
-            m, p = M.get(k), P.get(k)
+            m, p = M.get(base_key(k)), P.get(base_key(k))
             if p is not None and not lib.eq(p, s):
                 fails.append((it, k, "R2", i, s, m, p))
                 continue
@@ -626,6 +668,14 @@ def run(ctx, replay=None):
     hits = lib.lean_source_scan([os.path.join(lib.LEAN, "Tetl"), os.path.join(lib.LEAN, "TetlProofs")])
     if hits:
         log("MACHINERY-ERROR forbidden construct in Lean sources:\n  " + "\n  ".join(hits[:10]))
+        return 2
+    # tie of part (d): the definitions of the traits are re-extracted from the headers of the tree under test
+    try:
+        gen_info = c15_defs.generate(repo, os.path.join(lib.LEAN, "Tetl", "C15", "GenBuiltins.lean"), cxx=lib.CXX)
+        gen_info["opaque"] = len(gen_info["opaque"])
+        gen_info["limits"] = regenerate_limits(repo)
+    except Exception as e:      # noqa: BLE001
+        log("MACHINERY-ERROR extraction of the trait definitions failed: %s" % str(e)[:400])
         return 2
     ok, out = lib.lake_build([DRIVER])
     if not ok:
@@ -696,6 +746,16 @@ def run(ctx, replay=None):
             for op in ("add", "subtract", "multiply", "divide"):
                 if M_.get(op) == "ill-formed" and P_.get(op) == "ill-formed":
                     cand.append((ln, op))
+    ms_cand = []
+    for it in items:
+        ln = it.case.lines[0]
+        if ln.startswith("ut ") and not it.skip and it.call is not None:
+            M_, P_ = parse_items(it.model), parse_items(it.spec)
+            for which in ("make_signed", "make_unsigned"):
+                if M_.get(which) == "ill-formed" and P_.get(which) == "ill-formed":
+                    ms_cand.append((ln, which, it.call.split("<", 1)[1].rsplit(",", 2)[0]))
+    random.Random(ctx.seed + 1).shuffle(ms_cand)
+    ms_cand = ms_cand[:8 if ctx.tier == "quick" else 40]
     cand = list(dict.fromkeys(cand))
     budget = 32 if ctx.tier == "quick" else 160
     head_n = min(len(cand), 10)                 # the witnesses of the fixed findings and the ill-formed `rn` rows come first
@@ -708,7 +768,10 @@ def run(ctx, replay=None):
     probed = {}
     with cf.ThreadPoolExecutor(max_workers=lib.NPROC) as ex:
         futs = {k: ex.submit(probe_illformed, ctx, k[0], k[1], repo) for k in pick}
+        futs_ms = {(ln, which): ex.submit(probe_make_sign, ctx, cpp, which, repo) for (ln, which, cpp) in ms_cand}
         for k, f in futs.items():
+            probed[k] = f.result()
+        for k, f in futs_ms.items():
             probed[k] = f.result()
     accepted = [k for k, v in probed.items() if not v]
 
@@ -779,7 +842,7 @@ def run(ctx, replay=None):
         if n_acc >= 3:
             log("  (%d further ill-formed instantiations accepted)" % (len(accepted) - 3))
             break
-        what = "ratio<n, d>" if op == "rn" else "ratio_" + op
+        what = "ratio<n, d>" if op == "rn" else ("etl::" + op + "<T>::type") if op.startswith("make_") else "ratio_" + op
         ctx.violation({"kind": "impl_violates_property", "cases": [ln], "failing_line": 0, "item": op,
                        "impl": "%s: well-formed (the instantiation compiles)" % what, "model": "%s=ill-formed" % op,
                        "spec": "%s=ill-formed" % op, "std": "ill-formed",
@@ -807,8 +870,8 @@ def run(ctx, replay=None):
             continue
         I, M = parse_items(it.impl), parse_items(it.model)
         n_items += len(I)
-        n_model += sum(1 for k in I if k in M)
-        if all(lib.eq(I[k], M[k]) for k in I if k in M):
+        n_model += sum(1 for k in I if base_key(k) in M)
+        if all(lib.eq(I[k], M[base_key(k)]) for k in I if base_key(k) in M):
             agree += 1
     nontriv = {it.case.lines[0] for it in items if not it.skip and it.call is not None and nontrivial(it.case)}
     rnd = random.Random(ctx.seed)
@@ -843,6 +906,7 @@ def run(ctx, replay=None):
         "illformedness_probe_candidates": len(cand),
         "compile_wall_s": round(compile_s, 1),
         "known_findings_replayed": dict(ctx.known_hits),
+        "generated": gen_info,
         "source_hashes": lib.source_hashes(SOURCES),
         "notes": ctx.notes,
         "unproved_observed": UNPROVED_OBSERVED,
